@@ -167,6 +167,9 @@ pub trait ScopeOps {
     /// `try_alloc_try_with(_mut)`: `inner` is run inside the closure with a view of the same arena
     /// (only for the non-mut variant); returns Ok(Some(value ptr)) / Ok(None) for closure-Err / Err(())
     fn x_try_with(&mut self, k: TryKind, ok: bool, mut_: bool, inner: &mut dyn FnMut(&dyn ScopeOps)) -> R<Option<usize>>;
+    /// one entry point of the high-level typed family (`BumpAllocatorTypedScope` / `MutBumpAllocatorTypedScope`);
+    /// `hook` is called with a view of the handle at the moments described by `FamEvent`
+    fn x_family(&mut self, q: &FamReq, hook: &mut dyn FnMut(&dyn ScopeOps, FamEvent)) -> FamRes;
 }
 
 fn nn(p: usize) -> NonNull<u8> {
@@ -522,6 +525,9 @@ where
             TryKind::A32U8 => go!(Al32, u8, Al32([0x5A; 32]), 3),
         }
     }
+    fn x_family(&mut self, q: &FamReq, hook: &mut dyn FnMut(&dyn ScopeOps, FamEvent)) -> FamRes {
+        run_family::<Self>(self, q, hook)
+    }
 }
 
 /// `scope.by_value().with_settings::<MIN_ALIGN = n>()` for n ≥ the current minimum alignment.
@@ -557,3 +563,755 @@ impl_raise!(2 => [2, 4, 8, 16]);
 impl_raise!(4 => [4, 8, 16]);
 impl_raise!(8 => [8, 16]);
 impl_raise!(16 => [16]);
+
+// =================================================================================================
+// The high-level typed family (`BumpAllocatorTypedScope` / `MutBumpAllocatorTypedScope`).
+//
+// `x_family` runs ONE entry point of the family on the handle.  The executor (arena_inc/family.rs)
+// works on bytes; here the bytes are turned into typed sources (values, slices, strs, closures,
+// iterators), the real method is called and the returned box is dropped / leaked.
+//
+// Compile-time budget: the complete cross product (entry point x element type x try_/panicking twin)
+// is instantiated ONCE, for `dyn BumpAllocatorCoreScope` / `dyn MutBumpAllocatorCoreScope`
+// (`fam_dyn`, `fam_dyn_mut`: not generic over the configuration).  Per configuration only a small
+// covering subset is instantiated for the static handle types (`fam_lite*`).
+
+use std::cell::{Cell, RefCell};
+use std::collections::BTreeMap;
+use std::marker::PhantomData;
+
+use bump_scope::BumpBox;
+use bump_scope::traits::{BumpAllocatorCoreScope, BumpAllocatorTypedScope, MutBumpAllocatorCoreScope, MutBumpAllocatorTypedScope};
+
+/// entry points of the family
+#[derive(Clone, Copy, Debug, PartialEq, Eq)]
+pub enum Fam {
+    Alloc,
+    AllocWith,
+    AllocDefault,
+    AllocUninit,
+    SliceCopy,
+    SliceClone,
+    SliceFill,
+    SliceFillWith,
+    SliceMove,
+    Str,
+    CStr,
+    CStrFromStr,
+    UninitSlice,
+    UninitSliceFor,
+    IterExact,
+    Iter,
+    IterMut,
+    IterMutRev,
+}
+
+impl Fam {
+    pub const ALL: [Fam; 18] = [
+        Fam::Alloc,
+        Fam::AllocWith,
+        Fam::AllocDefault,
+        Fam::AllocUninit,
+        Fam::SliceCopy,
+        Fam::SliceClone,
+        Fam::SliceFill,
+        Fam::SliceFillWith,
+        Fam::SliceMove,
+        Fam::Str,
+        Fam::CStr,
+        Fam::CStrFromStr,
+        Fam::UninitSlice,
+        Fam::UninitSliceFor,
+        Fam::IterExact,
+        Fam::Iter,
+        Fam::IterMut,
+        Fam::IterMutRev,
+    ];
+    /// needs `&mut self` (goes through `MutBumpVec(Rev)`: prepare + allocate_prepared_slice(_rev))
+    pub fn is_mut(self) -> bool {
+        matches!(self, Fam::IterMut | Fam::IterMutRev)
+    }
+    /// allocates a single value (layout of T) rather than a slice
+    pub fn is_value(self) -> bool {
+        matches!(self, Fam::Alloc | Fam::AllocWith | Fam::AllocDefault | Fam::AllocUninit)
+    }
+    /// built on `BumpVec::with_capacity_in`: no allocator call at all for an empty source, deallocates on unwind
+    pub fn via_bump_vec(self) -> bool {
+        matches!(self, Fam::SliceMove | Fam::IterExact | Fam::Iter)
+    }
+    pub fn is_text(self) -> bool {
+        matches!(self, Fam::Str | Fam::CStr | Fam::CStrFromStr)
+    }
+    /// element types the entry point is instantiated with (through `dyn`; see `fam_lite` for the static subset)
+    pub fn elems(self) -> &'static [FElem] {
+        use FElem::*;
+        match self {
+            Fam::Alloc | Fam::AllocWith | Fam::AllocUninit => &[U8, U32, U64, A32, B3, Q9, Trk, Zst],
+            Fam::AllocDefault => &[U32, U64, Trk, Zst],
+            Fam::SliceCopy | Fam::UninitSlice => &[U8, U32, U64, A32, B3],
+            Fam::SliceClone | Fam::SliceFill | Fam::SliceFillWith | Fam::SliceMove | Fam::UninitSliceFor | Fam::IterExact | Fam::Iter | Fam::IterMut | Fam::IterMutRev => {
+                &[U8, U32, U64, A32, B3, Trk, Zst]
+            }
+            Fam::Str | Fam::CStr | Fam::CStrFromStr => &[U8],
+        }
+    }
+    pub fn name(self) -> &'static str {
+        match self {
+            Fam::Alloc => "fam:alloc",
+            Fam::AllocWith => "fam:alloc_with",
+            Fam::AllocDefault => "fam:alloc_default",
+            Fam::AllocUninit => "fam:alloc_uninit+init",
+            Fam::SliceCopy => "fam:alloc_slice_copy",
+            Fam::SliceClone => "fam:alloc_slice_clone",
+            Fam::SliceFill => "fam:alloc_slice_fill",
+            Fam::SliceFillWith => "fam:alloc_slice_fill_with",
+            Fam::SliceMove => "fam:alloc_slice_move",
+            Fam::Str => "fam:alloc_str",
+            Fam::CStr => "fam:alloc_cstr",
+            Fam::CStrFromStr => "fam:alloc_cstr_from_str",
+            Fam::UninitSlice => "fam:alloc_uninit_slice+init_copy",
+            Fam::UninitSliceFor => "fam:alloc_uninit_slice_for+init_move",
+            Fam::IterExact => "fam:alloc_iter_exact",
+            Fam::Iter => "fam:alloc_iter",
+            Fam::IterMut => "fam:alloc_iter_mut",
+            Fam::IterMutRev => "fam:alloc_iter_mut_rev",
+        }
+    }
+}
+
+/// element types of the family: the plain ones of `Elem` plus an instrumented 16-byte / 16-aligned
+/// type with drop accounting (`Trk`) and an instrumented zero-sized type (`TrkZ`)
+#[derive(Clone, Copy, Debug, PartialEq, Eq)]
+pub enum FElem {
+    U8,
+    U32,
+    U64,
+    A32,
+    B3,
+    Q9,
+    Trk,
+    Zst,
+}
+
+impl FElem {
+    pub fn layout(self) -> Layout {
+        match self {
+            FElem::U8 => Layout::new::<u8>(),
+            FElem::U32 => Layout::new::<u32>(),
+            FElem::U64 => Layout::new::<u64>(),
+            FElem::A32 => Layout::new::<Al32>(),
+            FElem::B3 => Layout::new::<[u8; 3]>(),
+            FElem::Q9 => Layout::new::<[u64; 9]>(),
+            FElem::Trk => Layout::new::<Trk>(),
+            FElem::Zst => Layout::new::<TrkZ>(),
+        }
+    }
+    /// the `Elem` under which a slice block of this type can later be handed to `shrink_slice`
+    pub fn as_elem(self) -> Option<Elem> {
+        match self {
+            FElem::U8 => Some(Elem::U8),
+            FElem::U32 => Some(Elem::U32),
+            FElem::U64 => Some(Elem::U64),
+            FElem::A32 => Some(Elem::A32),
+            FElem::B3 => Some(Elem::B3),
+            _ => None,
+        }
+    }
+    pub fn tracked(self) -> bool {
+        matches!(self, FElem::Trk | FElem::Zst)
+    }
+}
+
+pub struct FamReq<'r> {
+    pub ep: Fam,
+    pub elem: FElem,
+    /// number of elements (slices / iterators); text: number of bytes without the NUL
+    pub len: usize,
+    /// the source values, `len * size_of::<T>()` bytes (at least one element for value entry points and `alloc_slice_fill`);
+    /// empty when `huge`
+    pub src: &'r [u8],
+    /// the panicking twin instead of `try_…`
+    pub panicking: bool,
+    /// 0: the handle itself (`BumpScope`), 1: `&BumpScope` as the implementor, 2: `&mut BumpScope` as the implementor,
+    /// 3: `dyn (Mut)BumpAllocatorCoreScope`
+    pub entry: u8,
+    /// what happens to the returned `BumpBox`: 0 dropped, 1 `into_raw`, 2 `leak`
+    pub keep: u8,
+    /// `alloc_slice_move`: 0 `Vec<T>`, 1 `Box<[T]>`, 2 `&mut Vec<T>`
+    pub owned: u8,
+    /// a request that cannot succeed: no source is materialised (only for entry points that do not need one up front)
+    pub huge: bool,
+}
+
+#[derive(Clone, Copy, Debug, PartialEq, Eq)]
+pub struct FamOk {
+    pub ptr: usize,
+    pub len: usize,
+}
+pub type FamRes = Result<FamOk, ()>;
+
+pub enum FamEvent {
+    /// the first user callback (closure / Clone / Default / Iterator::next) of the call is about to run:
+    /// the allocation (if the entry point allocates before its callbacks) has happened, nothing else has
+    FirstCallback,
+    /// `alloc_iter_mut(_rev)`: result of the same `try_prepare_slice_allocation(_rev)::<T>(len)` the entry point
+    /// is about to issue, observed on the unchanged state: (pointer, capacity)
+    Prepared(R<(usize, usize)>),
+}
+
+// ---- instrumentation (thread local; the callbacks carry no state of their own)
+
+/// payload of the injected panics (raised with `resume_unwind`: the panic hook stays silent)
+pub struct FamPanic;
+
+#[derive(Default)]
+pub struct FamTl {
+    src: Vec<u8>,
+    total: usize,
+    rev: bool,
+    fuse: Option<usize>,
+    pub calls: usize,
+    pub fused: bool,
+    /// created - dropped per value (the 16 content bytes identify a value up to multiplicity)
+    balance: BTreeMap<[u8; 16], i64>,
+    pub created: u64,
+    pub dropped: u64,
+    pub zst_created: u64,
+    pub zst_dropped: u64,
+    pub errors: Vec<String>,
+}
+
+thread_local! {
+    static FAM_TL: RefCell<FamTl> = RefCell::new(FamTl::default());
+    static FAM_HOOK: Cell<Option<*mut (dyn FnMut() + 'static)>> = const { Cell::new(None) };
+}
+
+/// arms the instrumentation for one call: callbacks produce the elements of `src` (in reverse index order if `rev`),
+/// the callback number `fuse` (0-based) panics instead
+pub fn fam_begin(src: &[u8], total: usize, rev: bool, fuse: Option<usize>) {
+    FAM_TL.with(|t| {
+        *t.borrow_mut() = FamTl { src: src.to_vec(), total, rev, fuse, ..Default::default() };
+    });
+}
+
+pub struct FamReport {
+    pub calls: usize,
+    pub fused: bool,
+    pub created: u64,
+    pub dropped: u64,
+    pub zst_created: u64,
+    pub zst_dropped: u64,
+    /// values whose created - dropped count is not zero
+    pub unbalanced: Vec<([u8; 16], i64)>,
+    pub errors: Vec<String>,
+}
+
+pub fn fam_end() -> FamReport {
+    FAM_TL.with(|t| {
+        let t = std::mem::take(&mut *t.borrow_mut());
+        FamReport {
+            calls: t.calls,
+            fused: t.fused,
+            created: t.created,
+            dropped: t.dropped,
+            zst_created: t.zst_created,
+            zst_dropped: t.zst_dropped,
+            unbalanced: t.balance.into_iter().filter(|(_, v)| *v != 0).collect(),
+            errors: t.errors,
+        }
+    })
+}
+
+struct HookGuard;
+impl Drop for HookGuard {
+    fn drop(&mut self) {
+        FAM_HOOK.with(|h| h.set(None));
+    }
+}
+
+fn with_hook<R>(f: &mut dyn FnMut(), body: impl FnOnce() -> R) -> R {
+    let p: *mut (dyn FnMut() + '_) = f;
+    // lifetime erasure: the guard removes the pointer before `f` goes out of scope (also on unwind)
+    let p: *mut (dyn FnMut() + 'static) = unsafe { std::mem::transmute(p) };
+    FAM_HOOK.with(|h| h.set(Some(p)));
+    let _g = HookGuard;
+    body()
+}
+
+/// every user callback goes through here: returns the index of the element to produce
+fn fam_callback() -> usize {
+    let (first, fire, idx) = FAM_TL.with(|t| {
+        let mut t = t.borrow_mut();
+        let c = t.calls;
+        t.calls += 1;
+        let idx = if t.rev { t.total.wrapping_sub(1).wrapping_sub(c) } else { c };
+        (c == 0, t.fuse == Some(c), idx)
+    });
+    if first {
+        if let Some(p) = FAM_HOOK.with(|h| h.take()) {
+            unsafe { (*p)() }
+        }
+    }
+    if fire {
+        FAM_TL.with(|t| t.borrow_mut().fused = true);
+        std::panic::resume_unwind(Box::new(FamPanic));
+    }
+    idx
+}
+
+#[repr(C, align(16))]
+pub struct Trk {
+    pub bytes: [u8; 16],
+}
+
+impl Trk {
+    fn new(bytes: [u8; 16]) -> Trk {
+        FAM_TL.with(|t| {
+            let mut t = t.borrow_mut();
+            t.created += 1;
+            *t.balance.entry(bytes).or_insert(0) += 1;
+        });
+        Trk { bytes }
+    }
+}
+
+impl Clone for Trk {
+    fn clone(&self) -> Trk {
+        fam_callback();
+        Trk::new(self.bytes)
+    }
+}
+
+impl Default for Trk {
+    fn default() -> Trk {
+        <Trk as FT>::make()
+    }
+}
+
+impl Drop for Trk {
+    fn drop(&mut self) {
+        let bytes = self.bytes;
+        let addr = self as *const Trk as usize;
+        FAM_TL.with(|t| {
+            if let Ok(mut t) = t.try_borrow_mut() {
+                t.dropped += 1;
+                let e = t.balance.entry(bytes).or_insert(0);
+                *e -= 1;
+                if *e < 0 {
+                    let v = *e;
+                    t.errors.push(format!("value {bytes:02x?} at {addr:#x} dropped {} time(s) more often than it was created", -v));
+                }
+            }
+        });
+    }
+}
+
+pub struct TrkZ;
+
+impl TrkZ {
+    fn new() -> TrkZ {
+        FAM_TL.with(|t| t.borrow_mut().zst_created += 1);
+        TrkZ
+    }
+}
+impl Clone for TrkZ {
+    fn clone(&self) -> TrkZ {
+        fam_callback();
+        TrkZ::new()
+    }
+}
+impl Default for TrkZ {
+    fn default() -> TrkZ {
+        <TrkZ as FT>::make()
+    }
+}
+impl Drop for TrkZ {
+    fn drop(&mut self) {
+        FAM_TL.with(|t| {
+            if let Ok(mut t) = t.try_borrow_mut() {
+                t.zst_dropped += 1;
+                if t.zst_dropped > t.zst_created {
+                    let (c, d) = (t.zst_created, t.zst_dropped);
+                    t.errors.push(format!("zero-sized values: {d} dropped but only {c} created"));
+                }
+            }
+        });
+    }
+}
+
+/// element types of the family: constructible from source bytes
+pub trait FT: Sized + 'static {
+    fn from_src(src: &[u8], i: usize) -> Self;
+    /// a value produced by a user callback (counts as a callback invocation: first-callback hook, injected panic)
+    fn make() -> Self {
+        let i = fam_callback();
+        let n = size_of::<Self>();
+        let mut buf = [0u8; 80];
+        FAM_TL.with(|t| {
+            let t = t.borrow();
+            if n > 0 {
+                buf[..n].copy_from_slice(&t.src[i * n..(i + 1) * n]);
+            }
+        });
+        Self::from_src(&buf[..n], 0)
+    }
+    /// the explicit leak route (`into_raw` / `leak`): the values behind `ptr` will never be dropped
+    fn forget(_ptr: usize, _len: usize) {}
+}
+
+macro_rules! impl_ft_pod {
+    ($($T:ty)*) => {$(
+        impl FT for $T {
+            fn from_src(src: &[u8], i: usize) -> Self {
+                let n = size_of::<Self>();
+                assert!(src.len() >= (i + 1) * n);
+                unsafe { std::ptr::read_unaligned(src.as_ptr().add(i * n) as *const Self) }
+            }
+        }
+    )*};
+}
+impl_ft_pod!(u8 u32 u64 Al32 [u8; 3] [u64; 9]);
+
+impl FT for Trk {
+    fn from_src(src: &[u8], i: usize) -> Self {
+        let mut b = [0u8; 16];
+        b.copy_from_slice(&src[i * 16..(i + 1) * 16]);
+        Trk::new(b)
+    }
+    fn forget(ptr: usize, len: usize) {
+        FAM_TL.with(|t| {
+            let mut t = t.borrow_mut();
+            for i in 0..len {
+                let b = unsafe { *((ptr + 16 * i) as *const [u8; 16]) };
+                *t.balance.entry(b).or_insert(0) -= 1;
+            }
+        });
+    }
+}
+
+impl FT for TrkZ {
+    fn from_src(_src: &[u8], _i: usize) -> Self {
+        TrkZ::new()
+    }
+    fn forget(_ptr: usize, len: usize) {
+        FAM_TL.with(|t| t.borrow_mut().zst_dropped += len as u64);
+    }
+}
+
+struct SrcIter<T> {
+    left: usize,
+    _m: PhantomData<T>,
+}
+impl<T> SrcIter<T> {
+    fn new(left: usize) -> Self {
+        SrcIter { left, _m: PhantomData }
+    }
+}
+impl<T: FT> Iterator for SrcIter<T> {
+    type Item = T;
+    fn next(&mut self) -> Option<T> {
+        if self.left == 0 {
+            None
+        } else {
+            self.left -= 1;
+            Some(T::make())
+        }
+    }
+    fn size_hint(&self) -> (usize, Option<usize>) {
+        (self.left, Some(self.left))
+    }
+}
+impl<T: FT> ExactSizeIterator for SrcIter<T> {}
+
+fn mkvec<T: FT>(q: &FamReq) -> Vec<T> {
+    (0..q.len).map(|i| T::from_src(q.src, i)).collect()
+}
+
+fn fin1<T: FT>(bx: BumpBox<'_, T>, q: &FamReq) -> FamOk {
+    let ptr = &*bx as *const T as usize;
+    match q.keep {
+        0 => drop(bx),
+        1 => {
+            let _ = BumpBox::into_raw(bx);
+            T::forget(ptr, 1);
+        }
+        _ => {
+            let _ = BumpBox::leak(bx);
+            T::forget(ptr, 1);
+        }
+    }
+    FamOk { ptr, len: 1 }
+}
+
+fn fin_s<T: FT>(bx: BumpBox<'_, [T]>, q: &FamReq) -> FamOk {
+    let (ptr, len) = (bx.as_ptr() as usize, bx.len());
+    match q.keep {
+        0 => drop(bx),
+        1 => {
+            let _ = BumpBox::into_raw(bx);
+            T::forget(ptr, len);
+        }
+        _ => {
+            let _ = BumpBox::leak(bx);
+            T::forget(ptr, len);
+        }
+    }
+    FamOk { ptr, len }
+}
+
+fn fin_str(bx: BumpBox<'_, str>, q: &FamReq) -> FamOk {
+    let (ptr, len) = (bx.as_ptr() as usize, bx.len());
+    match q.keep {
+        0 => drop(bx),
+        1 => {
+            let _ = BumpBox::into_raw(bx);
+        }
+        _ => {
+            let _ = BumpBox::leak(bx);
+        }
+    }
+    FamOk { ptr, len }
+}
+
+// ---- one generic function per entry point (B: the implementor the call is dispatched on)
+
+macro_rules! twin {
+    ($q:ident, $b:ident . $m:ident / $tm:ident $(::<$G:ty>)? ( $($arg:expr),* )) => {
+        if $q.panicking { $b.$m $(::<$G>)? ($($arg),*) } else { $b.$tm $(::<$G>)? ($($arg),*).map_err(|_| ())? }
+    };
+}
+
+fn ep_alloc<'a, B: BumpAllocatorTypedScope<'a> + ?Sized, T: FT>(b: &B, q: &FamReq) -> FamRes {
+    let v = T::from_src(q.src, 0);
+    Ok(fin1(twin!(q, b.alloc / try_alloc(v)), q))
+}
+fn ep_alloc_with<'a, B: BumpAllocatorTypedScope<'a> + ?Sized, T: FT>(b: &B, q: &FamReq) -> FamRes {
+    Ok(fin1(twin!(q, b.alloc_with / try_alloc_with(|| T::make())), q))
+}
+fn ep_alloc_default<'a, B: BumpAllocatorTypedScope<'a> + ?Sized, T: FT + Default>(b: &B, q: &FamReq) -> FamRes {
+    Ok(fin1::<T>(twin!(q, b.alloc_default / try_alloc_default()), q))
+}
+fn ep_alloc_uninit<'a, B: BumpAllocatorTypedScope<'a> + ?Sized, T: FT>(b: &B, q: &FamReq) -> FamRes {
+    let u = twin!(q, b.alloc_uninit / try_alloc_uninit());
+    Ok(fin1::<T>(u.init(T::from_src(q.src, 0)), q))
+}
+fn ep_slice_copy<'a, B: BumpAllocatorTypedScope<'a> + ?Sized, T: FT + Copy>(b: &B, q: &FamReq) -> FamRes {
+    let v: Vec<T> = mkvec(q);
+    Ok(fin_s(twin!(q, b.alloc_slice_copy / try_alloc_slice_copy(&v)), q))
+}
+fn ep_slice_clone<'a, B: BumpAllocatorTypedScope<'a> + ?Sized, T: FT + Clone>(b: &B, q: &FamReq) -> FamRes {
+    let v: Vec<T> = mkvec(q);
+    Ok(fin_s(twin!(q, b.alloc_slice_clone / try_alloc_slice_clone(&v)), q))
+}
+fn ep_slice_fill<'a, B: BumpAllocatorTypedScope<'a> + ?Sized, T: FT + Clone>(b: &B, q: &FamReq) -> FamRes {
+    let v = T::from_src(q.src, 0);
+    Ok(fin_s(twin!(q, b.alloc_slice_fill / try_alloc_slice_fill(q.len, v)), q))
+}
+fn ep_slice_fill_with<'a, B: BumpAllocatorTypedScope<'a> + ?Sized, T: FT>(b: &B, q: &FamReq) -> FamRes {
+    Ok(fin_s(twin!(q, b.alloc_slice_fill_with / try_alloc_slice_fill_with(q.len, || T::make())), q))
+}
+fn ep_slice_move<'a, B: BumpAllocatorTypedScope<'a> + ?Sized, T: FT>(b: &B, q: &FamReq) -> FamRes {
+    let mut v: Vec<T> = mkvec(q);
+    let bx = match q.owned {
+        0 => twin!(q, b.alloc_slice_move / try_alloc_slice_move(v)),
+        1 => twin!(q, b.alloc_slice_move / try_alloc_slice_move(v.into_boxed_slice())),
+        _ => {
+            let r = if q.panicking { Ok(b.alloc_slice_move(&mut v)) } else { b.try_alloc_slice_move(&mut v) };
+            match r {
+                Ok(bx) => {
+                    if !v.is_empty() {
+                        FAM_TL.with(|t| t.borrow_mut().errors.push("alloc_slice_move(&mut Vec) left elements in the source vector".into()));
+                    }
+                    bx
+                }
+                Err(_) => return Err(()),
+            }
+        }
+    };
+    Ok(fin_s(bx, q))
+}
+fn ep_str<'a, B: BumpAllocatorTypedScope<'a> + ?Sized>(b: &B, q: &FamReq) -> FamRes {
+    let s = std::str::from_utf8(q.src).unwrap();
+    Ok(fin_str(twin!(q, b.alloc_str / try_alloc_str(s)), q))
+}
+fn ep_cstr<'a, B: BumpAllocatorTypedScope<'a> + ?Sized>(b: &B, q: &FamReq) -> FamRes {
+    let c = std::ffi::CString::new(q.src.to_vec()).unwrap();
+    let r = twin!(q, b.alloc_cstr / try_alloc_cstr(&c));
+    Ok(FamOk { ptr: r.as_ptr() as usize, len: r.to_bytes_with_nul().len() })
+}
+fn ep_cstr_from_str<'a, B: BumpAllocatorTypedScope<'a> + ?Sized>(b: &B, q: &FamReq) -> FamRes {
+    let s = std::str::from_utf8(q.src).unwrap();
+    let r = twin!(q, b.alloc_cstr_from_str / try_alloc_cstr_from_str(s));
+    Ok(FamOk { ptr: r.as_ptr() as usize, len: r.to_bytes_with_nul().len() })
+}
+fn ep_uninit_slice<'a, B: BumpAllocatorTypedScope<'a> + ?Sized, T: FT + Copy>(b: &B, q: &FamReq) -> FamRes {
+    let u = twin!(q, b.alloc_uninit_slice / try_alloc_uninit_slice::<T>(q.len));
+    if q.huge {
+        // cannot happen for a request no allocator can satisfy; reported by the caller through the length
+        let p = u.as_ptr() as usize;
+        let _ = BumpBox::into_raw(u);
+        return Ok(FamOk { ptr: p, len: q.len });
+    }
+    let v: Vec<T> = mkvec(q);
+    Ok(fin_s(u.init_copy(&v), q))
+}
+fn ep_uninit_slice_for<'a, B: BumpAllocatorTypedScope<'a> + ?Sized, T: FT>(b: &B, q: &FamReq) -> FamRes {
+    let template: Vec<T> = mkvec(q);
+    let u = twin!(q, b.alloc_uninit_slice_for / try_alloc_uninit_slice_for(&template));
+    let v: Vec<T> = mkvec(q);
+    Ok(fin_s(u.init_move(v), q))
+}
+fn ep_iter_exact<'a, B: BumpAllocatorTypedScope<'a> + ?Sized, T: FT>(b: &B, q: &FamReq) -> FamRes {
+    Ok(fin_s(twin!(q, b.alloc_iter_exact / try_alloc_iter_exact(SrcIter::<T>::new(q.len))), q))
+}
+fn ep_iter<'a, B: BumpAllocatorTypedScope<'a> + ?Sized, T: FT>(b: &B, q: &FamReq) -> FamRes {
+    Ok(fin_s(twin!(q, b.alloc_iter / try_alloc_iter(SrcIter::<T>::new(q.len))), q))
+}
+fn ep_iter_mut<'a, B: MutBumpAllocatorTypedScope<'a> + ?Sized, T: FT>(b: &mut B, q: &FamReq) -> FamRes {
+    Ok(fin_s(twin!(q, b.alloc_iter_mut / try_alloc_iter_mut(SrcIter::<T>::new(q.len))), q))
+}
+fn ep_iter_mut_rev<'a, B: MutBumpAllocatorTypedScope<'a> + ?Sized, T: FT>(b: &mut B, q: &FamReq) -> FamRes {
+    Ok(fin_s(twin!(q, b.alloc_iter_mut_rev / try_alloc_iter_mut_rev(SrcIter::<T>::new(q.len))), q))
+}
+fn ep_prepare<B: BumpAllocatorTyped + ?Sized, T>(b: &B, len: usize, rev: bool) -> R<(usize, usize)> {
+    if rev {
+        b.try_prepare_slice_allocation_rev::<T>(len).map(|(p, c)| (p.as_ptr() as usize, c)).map_err(|_| ())
+    } else {
+        b.try_prepare_slice_allocation::<T>(len).map(|p| (p.cast::<T>().as_ptr() as usize, p.len())).map_err(|_| ())
+    }
+}
+
+macro_rules! for_felem {
+    ($e:expr, [$($V:ident => $Ty:ty),*], $T:ident => $body:expr) => {
+        match $e {
+            $(FElem::$V => {
+                type $T = $Ty;
+                $body
+            })*
+            #[allow(unreachable_patterns)]
+            _ => unreachable!("element type not instantiated for this entry point"),
+        }
+    };
+}
+
+/// the complete family through the trait object (compiled once)
+pub fn fam_dyn<'a>(b: &dyn BumpAllocatorCoreScope<'a>, q: &FamReq) -> FamRes {
+    match q.ep {
+        Fam::Alloc => for_felem!(q.elem, [U8 => u8, U32 => u32, U64 => u64, A32 => Al32, B3 => [u8; 3], Q9 => [u64; 9], Trk => Trk, Zst => TrkZ], T => ep_alloc::<_, T>(b, q)),
+        Fam::AllocWith => for_felem!(q.elem, [U8 => u8, U32 => u32, U64 => u64, A32 => Al32, B3 => [u8; 3], Q9 => [u64; 9], Trk => Trk, Zst => TrkZ], T => ep_alloc_with::<_, T>(b, q)),
+        Fam::AllocDefault => for_felem!(q.elem, [U32 => u32, U64 => u64, Trk => Trk, Zst => TrkZ], T => ep_alloc_default::<_, T>(b, q)),
+        Fam::AllocUninit => for_felem!(q.elem, [U8 => u8, U32 => u32, U64 => u64, A32 => Al32, B3 => [u8; 3], Q9 => [u64; 9], Trk => Trk, Zst => TrkZ], T => ep_alloc_uninit::<_, T>(b, q)),
+        Fam::SliceCopy => for_felem!(q.elem, [U8 => u8, U32 => u32, U64 => u64, A32 => Al32, B3 => [u8; 3]], T => ep_slice_copy::<_, T>(b, q)),
+        Fam::SliceClone => for_felem!(q.elem, [U8 => u8, U32 => u32, U64 => u64, A32 => Al32, B3 => [u8; 3], Trk => Trk, Zst => TrkZ], T => ep_slice_clone::<_, T>(b, q)),
+        Fam::SliceFill => for_felem!(q.elem, [U8 => u8, U32 => u32, U64 => u64, A32 => Al32, B3 => [u8; 3], Trk => Trk, Zst => TrkZ], T => ep_slice_fill::<_, T>(b, q)),
+        Fam::SliceFillWith => for_felem!(q.elem, [U8 => u8, U32 => u32, U64 => u64, A32 => Al32, B3 => [u8; 3], Trk => Trk, Zst => TrkZ], T => ep_slice_fill_with::<_, T>(b, q)),
+        Fam::SliceMove => for_felem!(q.elem, [U8 => u8, U32 => u32, U64 => u64, A32 => Al32, B3 => [u8; 3], Trk => Trk, Zst => TrkZ], T => ep_slice_move::<_, T>(b, q)),
+        Fam::Str => ep_str(b, q),
+        Fam::CStr => ep_cstr(b, q),
+        Fam::CStrFromStr => ep_cstr_from_str(b, q),
+        Fam::UninitSlice => for_felem!(q.elem, [U8 => u8, U32 => u32, U64 => u64, A32 => Al32, B3 => [u8; 3]], T => ep_uninit_slice::<_, T>(b, q)),
+        Fam::UninitSliceFor => for_felem!(q.elem, [U8 => u8, U32 => u32, U64 => u64, A32 => Al32, B3 => [u8; 3], Trk => Trk, Zst => TrkZ], T => ep_uninit_slice_for::<_, T>(b, q)),
+        Fam::IterExact => for_felem!(q.elem, [U8 => u8, U32 => u32, U64 => u64, A32 => Al32, B3 => [u8; 3], Trk => Trk, Zst => TrkZ], T => ep_iter_exact::<_, T>(b, q)),
+        Fam::Iter => for_felem!(q.elem, [U8 => u8, U32 => u32, U64 => u64, A32 => Al32, B3 => [u8; 3], Trk => Trk, Zst => TrkZ], T => ep_iter::<_, T>(b, q)),
+        Fam::IterMut | Fam::IterMutRev => unreachable!(),
+    }
+}
+
+pub fn fam_dyn_mut<'a>(b: &mut dyn MutBumpAllocatorCoreScope<'a>, q: &FamReq) -> FamRes {
+    match q.ep {
+        Fam::IterMut => for_felem!(q.elem, [U8 => u8, U32 => u32, U64 => u64, A32 => Al32, B3 => [u8; 3], Trk => Trk, Zst => TrkZ], T => ep_iter_mut::<_, T>(b, q)),
+        Fam::IterMutRev => for_felem!(q.elem, [U8 => u8, U32 => u32, U64 => u64, A32 => Al32, B3 => [u8; 3], Trk => Trk, Zst => TrkZ], T => ep_iter_mut_rev::<_, T>(b, q)),
+        _ => unreachable!(),
+    }
+}
+
+pub fn fam_dyn_prepare<'a>(b: &dyn BumpAllocatorCoreScope<'a>, q: &FamReq) -> R<(usize, usize)> {
+    let rev = q.ep == Fam::IterMutRev;
+    for_felem!(q.elem, [U8 => u8, U32 => u32, U64 => u64, A32 => Al32, B3 => [u8; 3], Trk => Trk], T => ep_prepare::<_, T>(b, q.len, rev))
+}
+
+/// the covering subset instantiated per configuration for the handle type itself (kept small: every line here is
+/// compiled once per settings combination; the complete cross product runs through `fam_dyn`)
+fn fam_lite<'a, B: BumpAllocatorTypedScope<'a>>(b: &B, q: &FamReq) -> Option<FamRes> {
+    use FElem::*;
+    Some(match (q.ep, q.elem, q.panicking) {
+        (Fam::Alloc, U64, _) => ep_alloc::<B, u64>(b, q),
+        (Fam::AllocWith, Trk, false) => ep_alloc_with::<B, self::Trk>(b, q),
+        (Fam::SliceCopy, U32, false) => ep_slice_copy::<B, u32>(b, q),
+        (Fam::SliceFillWith, Trk, false) => ep_slice_fill_with::<B, self::Trk>(b, q),
+        (Fam::Str, _, false) => ep_str::<B>(b, q),
+        (Fam::CStr, _, true) => ep_cstr::<B>(b, q),
+        (Fam::IterExact, Trk, false) => ep_iter_exact::<B, self::Trk>(b, q),
+        _ => return None,
+    })
+}
+
+/// `&BumpScope` / `&mut BumpScope` as the implementor (the forwarding impls)
+fn fam_ref<'a, B: BumpAllocatorTypedScope<'a>>(b: &B, q: &FamReq) -> Option<FamRes> {
+    use FElem::*;
+    Some(match (q.ep, q.elem, q.panicking) {
+        (Fam::Alloc, U64, false) => ep_alloc::<B, u64>(b, q),
+        (Fam::Str, _, false) => ep_str::<B>(b, q),
+        _ => return None,
+    })
+}
+
+/// is (entry point, element, twin) instantiated for the static entry `entry` (0, 1, 2)?  entry 3 (`dyn`) has everything
+pub fn fam_static_has(q: &FamReq) -> bool {
+    use FElem::*;
+    match q.entry {
+        0 => matches!(
+            (q.ep, q.elem, q.panicking),
+            (Fam::Alloc, U64, _)
+                | (Fam::AllocWith, Trk, false)
+                | (Fam::SliceCopy, U32, false)
+                | (Fam::SliceFillWith, Trk, false)
+                | (Fam::Str, _, false)
+                | (Fam::CStr, _, true)
+                | (Fam::IterExact, Trk, false)
+        ),
+        1 | 2 => matches!((q.ep, q.elem, q.panicking), (Fam::Alloc, U64, false) | (Fam::Str, _, false)),
+        _ => true,
+    }
+}
+
+/// generic part of `ScopeOps::x_family` (one instantiation per configuration)
+fn run_family<'a, S>(sc: &mut S, q: &FamReq, hook: &mut dyn FnMut(&dyn ScopeOps, FamEvent)) -> FamRes
+where
+    S: ScopeOps + BumpAllocatorTypedScope<'a> + MutBumpAllocatorCoreScope<'a>,
+{
+    assert!(fam_static_has(q), "family call not instantiated for this entry");
+    if q.ep.is_mut() {
+        if q.len > 0 && q.elem != FElem::Zst {
+            // the same preparation the entry point is about to issue, observed on the unchanged state
+            let pre = {
+                let d: &dyn BumpAllocatorCoreScope<'a> = &*sc;
+                fam_dyn_prepare(d, q)
+            };
+            hook(&*sc, FamEvent::Prepared(pre));
+            // the prepared area cannot be observed from outside the call: the entry point is only entered when its
+            // preparation is known to succeed (or cannot succeed at all)
+            if pre.is_err() && !q.huge {
+                return Err(());
+            }
+        }
+        // (`MutBumpVec(Rev)<T, &mut BumpScope>` is not instantiated per configuration: compile time)
+        let d: &mut dyn MutBumpAllocatorCoreScope<'a> = &mut *sc;
+        return fam_dyn_mut(d, q);
+    }
+    if q.entry == 2 {
+        // `&mut BumpScope` as the implementor: only entry points without callbacks (the hook cannot view the handle)
+        let m: &mut S = &mut *sc;
+        return fam_ref::<&mut S>(&m, q).unwrap();
+    }
+    let this: &S = &*sc;
+    let mut h = || hook(this, FamEvent::FirstCallback);
+    with_hook(&mut h, || match q.entry {
+        0 => fam_lite::<S>(this, q).unwrap(),
+        1 => fam_ref::<&S>(&this, q).unwrap(),
+        _ => {
+            let d: &dyn BumpAllocatorCoreScope<'a> = this;
+            fam_dyn(d, q)
+        }
+    })
+}
